@@ -796,6 +796,12 @@ def replay(case):
         except Exception as e:
             return None if [getattr(e, "line", None), getattr(e, "column", None)] == case["want"] else {"got": [getattr(e, "line", None), getattr(e, "column", None)]}
         return {"accepted": True}
+    m = re.search(r"(/\S*mcf_c11q_\w+/inc\.map)", text)
+    if m and not os.path.exists(m.group(1)):
+        # an INCLUDEQ case: the file it names lived in a scratch directory - put it back for the replay
+        os.makedirs(os.path.dirname(m.group(1)), exist_ok=True)
+        with open(m.group(1), "w", encoding="utf-8") as f:
+            f.write('  NAME "included"\n')
     FLAGS[0] = dict(case.get("flags") or {})
     cat, msg = classify(text, bool(INCLUDE_RE.search(text)))
     FLAGS[0] = dict()
